@@ -4,6 +4,7 @@ use serde_json::Value;
 
 pub mod c07;
 pub mod c18;
+pub mod c25;
 pub mod canon;
 pub mod c31;
 pub mod c32;
@@ -24,6 +25,7 @@ pub fn replay_fn(kind: &str) -> Result<fn(&Value) -> Outcome> {
         "llrun" => llrun::replay,
         "c07" => c07::replay,
         "c31" => c31::replay,
+        "c25" => c25::replay,
         "c18" => c18::replay,
         "names" => names::replay,
         "tables" => tables::replay,
